@@ -172,3 +172,57 @@ pub mod s4 {
         };
     }
 }
+
+pub mod s5 {
+    use a2lmacros_intree::a2ml_specification;
+    // the same tags and member names in different places, with members of different types: the
+    // generated Rust types of equally named blocks must not be mixed up
+    a2ml_specification! {
+        <SpecFive>
+
+        block "IF_DATA" taggedunion if_data {
+            "DEV" struct {
+                uint version;
+                taggedstruct {
+                    block "CHANNEL_A" struct {
+                        uint id;
+                        taggedstruct {
+                            "MODE" enum ModeA {
+                                "A_FAST" = 0,
+                                "A_SLOW" = 1
+                            } mode;
+                            "LIMIT" uint limit;
+                            block "ITEM" struct ItemA {
+                                uchar kind;
+                                char label[12];
+                            } item;
+                        };
+                    };
+                    block "CHANNEL_B" struct {
+                        uint id;
+                        taggedstruct {
+                            "MODE" enum ModeB {
+                                "B_ON" = 0,
+                                "B_OFF" = 1,
+                                "B_AUTO" = 2
+                            } mode;
+                            "LIMIT" double limit;
+                            block "ITEM" struct ItemB {
+                                long offset;
+                                long length;
+                                float gain;
+                            } item;
+                        };
+                    };
+                    (block "CHANNEL_C" struct {
+                        uint id;
+                        taggedstruct {
+                            "MODE" uint64 mode;
+                            ("LIMIT" int limit)*;
+                        };
+                    })*;
+                };
+            };
+        };
+    }
+}
